@@ -152,7 +152,11 @@ def check(model: Model, run: Run) -> None:
             # search-set removal on the server happens with discard whether or not present: compare as sets of outcomes
             closed = all(x[0] == "CLOSED" for x in s_set | r_set)
             if closed:
-                ok = True
+                # both ends are CLOSED: what remains to be agreed on is which operations are still in progress - the side that
+                # terminates and the side that is told both forget theirs
+                ob_s = {"remove" if b in ("remove", "clear") else b for _a, b, _c in s_set}
+                ob_r = {"remove" if b in ("remove", "clear") else b for _a, b, _c in r_set}
+                ok = ob_s == ob_r
             else:
                 norm_s = {(a, "remove" if b in ("remove", "clear") else b, "remove" if c in ("remove", "clear") else c) for a, b, c in s_set}
                 norm_r = {(a, "remove" if b in ("remove", "clear") else b, "remove" if c in ("remove", "clear") else c) for a, b, c in r_set}
@@ -162,3 +166,38 @@ def check(model: Model, run: Run) -> None:
                 run.fail(Finding("M1-mirror-agreement", f"{sq}|{rq}", f"{label}|pre={pre_state}|send={sorted(s_set)}|recv={sorted(r_set)}",
                                  f"{label} from {pre_state}: sender ends (state, outstanding, search) = {sorted(s_set)} but receiver ends {sorted(r_set)}", ""))
     run.floor("mirror pairs", npairs, 12)
+    parameters_reach_their_fields(model, run)
+
+
+def parameters_reach_their_fields(model: Model, run: Run, rule: str = "M2-call-parameters-reach-their-own-fields") -> None:
+    """M2: where a sending method builds its message, a method parameter that is named like a field of the message class is
+    stored in *that* field.  `SearchRequest(size_limit=time_limit, time_limit=size_limit)` type-checks and round-trips through
+    the codec, but the peer application receives something else than the caller asked to send."""
+    import ast
+    from ..srcmodel import norm, walk_no_nested
+    n = 0
+    for fq, fi in sorted(model.functions.items()):
+        if fi.module != SESSION_MOD or isinstance(fi.node, ast.Lambda) or not fi.cls:
+            continue
+        params = set(fi.params()[1:])
+        if not params:
+            continue
+        stores = {x.id for x in walk_no_nested(fi.node) if isinstance(x, ast.Name) and isinstance(x.ctx, ast.Store)}
+        for c in walk_no_nested(fi.node):
+            if not (isinstance(c, ast.Call) and isinstance(c.func, (ast.Name, ast.Attribute))):
+                continue
+            q = model.resolve_name(fi.module, norm(c.func))
+            k = model.classes.get(q) if q else None
+            if k is None or not k.is_dataclass:
+                continue
+            fields = [f.name for f in model.dataclass_fields(q) if f.init]
+            bound = list(zip(fields, c.args)) + [(kw.arg, kw.value) for kw in c.keywords if kw.arg]
+            for fname, v in bound:
+                if isinstance(v, ast.Name) and v.id in params and v.id not in stores and v.id in fields:
+                    n += 1
+                    ok = v.id == fname
+                    run.ob(rule, ok, {"method": fq.split("sansldap.")[-1], "field": fname, "argument": v.id})
+                    if not ok:
+                        run.fail(Finding(rule, fq, f"{q.split('.')[-1]}.{fname}={v.id}", f"{fi.name} stores its parameter `{v.id}` in {q.split('.')[-1]}.{fname} although the class has a field "
+                                         f"`{v.id}` of its own: the peer receives the two values exchanged", model.loc(fi.module, c)))
+    run.floor("parameters stored in same-named message fields", n, 15)
